@@ -15,4 +15,5 @@ one() {
   echo "$id exit=$rc confirmed=$conf no-input=$nof :: $first"
 }
 export -f one
-ls -d seeded/*/ | xargs -P $J -I{} bash -c 'one {}' | sort
+# the C01 check uses all cores by itself (28 item shapes): its seeds run one after the other, the rest side by side
+(ls -d seeded/C01-*/ | xargs -P 1 -I{} bash -c 'one {}'; ls -d seeded/*/ | grep -v "seeded/C01-" | xargs -P $J -I{} bash -c 'one {}') | sort
